@@ -146,6 +146,116 @@ theorem avail_apply (s : State) (op : DbOp) (hop : op.isDereference = false) (h 
   | commit x => exact avail_commit x ha
 
 
+/-! ### `Commit` writes children before parents -/
+
+/-- in the list `L`, every cached child of an entry occurs before it -/
+def ChildrenFirst (m : List CNode) (L : List H32) : Prop :=
+  ∀ i x, L[i]? = some x → ∀ n, find m x = some n → ∀ k ∈ n.kids, (find m k).isSome → k ∈ L.take i
+
+theorem reach_not_cached {m : List CNode} {k : H32} (h : find m k = none) (fuel : Nat) (acc : List H32) :
+    reach fuel m k acc = acc := by
+  cases fuel <;> simp [reach, h]
+
+theorem childrenFirst_snoc {m : List CNode} {A : List H32} {h : H32} (hA : ChildrenFirst m A)
+    (hk : ∀ n, find m h = some n → ∀ k ∈ n.kids, (find m k).isSome → k ∈ A) : ChildrenFirst m (A ++ [h]) := by
+  intro i x hx n hn k hkm hks
+  by_cases hi : i < A.length
+  · rw [List.getElem?_append_left hi] at hx
+    have := hA i x hx n hn k hkm hks
+    rw [List.take_append_of_le_length (by omega)]
+    exact this
+  · have hi' : i = A.length := by
+      by_cases h2 : i = A.length
+      · exact h2
+      · rw [List.getElem?_append_right (by omega)] at hx
+        have : i - A.length ≥ 1 := by omega
+        cases hd : i - A.length with
+        | zero => omega
+        | succ d => rw [hd] at hx; simp at hx
+    subst hi'
+    simp at hx
+    subst hx
+    simp
+    exact hk n hn k hkm hks
+
+/-- the main induction: with fuel above the rank of `h`, `reach` extends `acc`, keeps it children-first,
+and contains `h` if it is cached -/
+theorem reach_spec (m : List CNode) (rk : H32 → Nat)
+    (hrk : ∀ n ∈ m, ∀ k ∈ n.kids, (find m k).isSome → rk k < rk n.hash) :
+    ∀ fuel h acc, rk h < fuel → ChildrenFirst m acc →
+      ChildrenFirst m (reach fuel m h acc) ∧ (∃ ext, reach fuel m h acc = acc ++ ext) ∧
+      ((find m h).isSome → h ∈ reach fuel m h acc) := by
+  intro fuel
+  induction fuel with
+  | zero => intro h acc hf; omega
+  | succ fuel ih =>
+    intro h acc hf hacc
+    unfold reach
+    cases hfind : find m h with
+    | none => exact ⟨hacc, ⟨[], by simp⟩, by simp⟩
+    | some n =>
+      simp only
+      have hnm : n ∈ m := List.mem_of_find?_eq_some hfind
+      have hnh : n.hash = h := by
+        have := List.find?_some hfind
+        simpa using this
+      by_cases hc : acc.contains h = true
+      · simp only [hc, if_true]
+        exact ⟨hacc, ⟨[], by simp⟩, fun _ => by simpa using hc⟩
+      · simp only [hc, Bool.false_eq_true, if_false]
+        -- fold over the children
+        have hfold : ∀ (ks : List H32) (A : List H32), (∀ k ∈ ks, k ∈ n.kids) → ChildrenFirst m A →
+            ChildrenFirst m (ks.foldl (fun a k => reach fuel m k a) A) ∧
+            (∃ ext, ks.foldl (fun a k => reach fuel m k a) A = A ++ ext) ∧
+            (∀ k ∈ ks, (find m k).isSome → k ∈ ks.foldl (fun a k => reach fuel m k a) A) := by
+          intro ks
+          induction ks with
+          | nil => intro A _ hA; exact ⟨hA, ⟨[], by simp⟩, by simp⟩
+          | cons k ks ihk =>
+            intro A hsub hA
+            simp only [List.foldl_cons]
+            have hstep : ChildrenFirst m (reach fuel m k A) ∧ (∃ ext, reach fuel m k A = A ++ ext) ∧
+                ((find m k).isSome → k ∈ reach fuel m k A) := by
+              cases hk : find m k with
+              | none => rw [reach_not_cached hk]; exact ⟨hA, ⟨[], by simp⟩, by simp⟩
+              | some nk =>
+                have hr := hrk n hnm k (hsub k (by simp)) (by simp [hk])
+                have := ih k A (by rw [hnh] at hr; omega) hA
+                simpa [hk] using this
+            obtain ⟨h1, ⟨e1, he1⟩, h3⟩ := hstep
+            obtain ⟨g1, ⟨e2, he2⟩, g3⟩ := ihk (reach fuel m k A) (fun k' hk' => hsub k' (by simp [hk'])) h1
+            refine ⟨g1, ⟨e1 ++ e2, by rw [he2, he1, List.append_assoc]⟩, ?_⟩
+            intro k' hk' hs
+            rcases List.mem_cons.1 hk' with rfl | hk''
+            · rw [he2]; exact List.mem_append_left _ (h3 hs)
+            · exact g3 k' hk'' hs
+        obtain ⟨f1, ⟨ext, hext⟩, f3⟩ := hfold n.kids acc (fun _ hk => hk) hacc
+        refine ⟨?_, ⟨ext ++ [h], by rw [hext, List.append_assoc]⟩, fun _ => by simp⟩
+        apply childrenFirst_snoc f1
+        intro n' hn' k hk hs
+        rw [hfind] at hn'
+        simp only [Option.some.injEq] at hn'
+        subst hn'
+        exact f3 k hk hs
+
+/-- **`Database.Commit` writes children before parents**: if the flush-list is ordered (a rank `rk` below
+the list length decreases from every cached node to its cached children — children are inserted before
+their parents) and every child of a cached node is cached or on disk, then at every point of the write
+sequence of `Commit(root)` the children of the node being written are already written or on disk.  So the
+disk content after a crash between any two writes is closed under children. -/
+theorem commit_children_first (s : State) (root : H32) (rk : H32 → Nat)
+    (hrk : ∀ n ∈ s.mem, ∀ k ∈ n.kids, (find s.mem k).isSome → rk k < rk n.hash)
+    (hbound : ∀ x, rk x ≤ s.mem.length)
+    (hclosed : ∀ n ∈ s.mem, ∀ k ∈ n.kids, (find s.mem k).isSome ∨ k ∈ s.disk) :
+    ∀ i x, (commitOrder s root)[i]? = some x → ∀ n, find s.mem x = some n →
+      ∀ k ∈ n.kids, k ∈ (commitOrder s root).take i ∨ k ∈ s.disk := by
+  intro i x hx n hn k hk
+  have hspec := (reach_spec s.mem rk hrk (s.mem.length + 1) root [] (by have := hbound root; omega)
+    (by intro i x hx; simp at hx)).1
+  rcases hclosed n (List.mem_of_find?_eq_some hn) k hk with hm | hd
+  · exact Or.inl (hspec i x hx n hn k hk hm)
+  · exact Or.inr hd
+
 /-- reachability through the (content-addressed) children relation `K` -/
 inductive Reach (K : H32 → List H32) : H32 → H32 → Prop where
   | refl (a : H32) : Reach K a a
